@@ -1173,6 +1173,40 @@ def values_stage(chk, M, specs):
                ["replace tag_was_set m upd ~ m.replace(**upd)"])
 
 
+def serializable_specs(chk, M, specs):
+    """Totality of the dumps on every generated value: serialize(), model_dump_json(by_alias) and the
+    JSON-RPC / event serialisers must not raise on a value within the field constraints.  A value
+    on which one raises is reported (with the value) and left out of the later stages."""
+    from pydantic import TypeAdapter
+
+    anyadapter = TypeAdapter(object)
+    good = []
+    for spec in specs:
+        try:
+            m = build(M, spec)
+        except Exception as exc:  # noqa: BLE001
+            chk.monitor_failure("constraints", {"cls": spec["cls"], "what": "valid_value_rejected"},
+                                f"a value within the field constraints was rejected: {type(exc).__name__}",
+                                {"cls": spec["cls"], "spec": spec_json(spec)})
+            continue
+        failed = False
+        for call, fn in (("serialize", m.serialize), ("model_dump_json", lambda m=m: m.model_dump_json(by_alias=True)),
+                         ("dump_json_any", lambda m=m: anyadapter.dump_json(m, by_alias=True)),
+                         ("model_dump_python", lambda m=m: m.model_dump(mode="json", by_alias=False, exclude_unset=True))):
+            try:
+                fn()
+            except Exception as exc:  # noqa: BLE001
+                n_art = max((len(o.get("artists") or []) for _p, o in all_objects(spec) if isinstance(o, dict)), default=0)
+                chk.monitor_failure("roundtrip", {"wire": call, "cls": spec["cls"], "what": "dump_raised"},
+                                    f"{call}() raised {type(exc).__name__}: {str(exc)[:120]} (largest artists set: {n_art})",
+                                    {"cls": spec["cls"], "spec": spec_json(spec)})
+                failed = True
+                break
+        if not failed:
+            good.append(spec)
+    return good
+
+
 def load_corpus():
     out = []
     for f in sorted((vlib.VERIF / "corpus" / "C08").glob("*.json")):
@@ -1207,6 +1241,7 @@ def run(chk):
     specs = load_corpus()
     for cls in CLASSES:
         specs += [GENS[cls](chk.rng) for _ in range(n)]
+    specs = serializable_specs(chk, M, specs)
     for s in specs[:3]:
         chk.sample({"cls": s["cls"], "serialize": spec_json(s)})
     chk.search_hook = search_hook(M, jsonrpc)
@@ -1218,5 +1253,15 @@ def run(chk):
                         ("event", lambda: event_stage(chk, M, specs)), ("storage", lambda: storage_stage(chk, M, specs)),
                         ("storage_fault", lambda: storage_fault_stage(chk, M, specs))):
         t0 = time.time()
-        stage()
+        try:
+            stage()
+        except Exception as exc:  # noqa: BLE001 - the implementation raised where the harness does not expect it
+            import traceback
+
+            tb = traceback.extract_tb(exc.__traceback__)
+            where = next((f"{f.filename.split('/src/')[-1]}:{f.lineno} {f.name}" for f in reversed(tb) if "/src/mopidy/" in f.filename), "harness")
+            chk.monitor_failure("no_exception", {"stage": name, "exc": type(exc).__name__},
+                                f"stage {name}: {type(exc).__name__}: {str(exc)[:160]} (raised in {where})",
+                                {"stage": name, "traceback": [f"{f.filename}:{f.lineno} {f.name}" for f in tb[-6:]]})
+            chk.obligation(f"stage-completed:{name}", "audit", False, f"{type(exc).__name__}: {exc}")
         chk.notes.append(f"stage {name}: {time.time() - t0:.1f} s")
